@@ -67,134 +67,22 @@ PROPS["C07"] = {
     "trusted_base": ["model: BV/Model/Pool.lean + BV/Model/FixedQueue.lean mirror src/enc/worker_pool.rs (do_work, spawn, join, Drop) and src/enc/fixed_queue.rs", "scheduler shim src/enc/verif_sched.rs (cfg brotli_verif)"],
 }
 
-PROPS["C17"] = {
-    "lean_modules": ["BV.Props.C17"],
-    "stages": [{"name": "huff", "cmd": ["huff"]}],
-    "level_text": "Proof (complete for builder, canonical codes, RLE and the stored complex form; the four simple forms by instances): Lean 4 theorems over a line-by-line executable model of src/enc/entropy_encode.rs (whole file) and of the tree-storing functions of brotli_bit_stream.rs. (1) BrotliCreateHuffmanTree: for every histogram with >= 2 occurring symbols, limit M <= 15 and some retry round R with  sum(counts) + len*2^R < min(2^32-1, fib(M+3)*2^R)  the count_limit retry loop TERMINATES, nothing panics, the depths satisfy Kraft EQUALITY, are non-zero exactly on the occurring symbols and are <= M (proved via: SortHuffmanTreeItems permutes and its last gap-1 pass sorts; the two-queue merge builds a full binary tree over exactly the leaves and always merges the two lightest roots, hence the Fibonacci height bound; BrotliSetDepth's explicit stack is a tree traversal). Instances: alphabets <= 704 with total <= 2^25 at limit 15, the 18-symbol code-length alphabet with total <= 704 at limit 5, the fast builder's loop at limit 14; entry-point theorems for BuildAndStoreHuffmanTree and BrotliBuildAndStoreHuffmanTreeFast. (2) BrotliConvertBitDepthsToSymbols yields, for every depth vector <= 15, the RFC 7932 section 3.2 canonical code bit-reversed (BrotliReverseBits proved = bit reversal for 1..16 bits); canonical codes are prefix-free and fit their lengths when Kraft <= 1. (3) For every depth vector <= 15 and both values of each RLE switch, the RFC section 3.5 expansion (repeat codes 16/17 with chaining) of what BrotliWriteHuffmanTree emits is the vector without trailing zeros, and the output never exceeds the 704-entry arrays. (4) store_tree_roundtrip: for every Kraft-complete depth vector (<= 704 symbols, depths <= 15) BrotliStoreHuffmanTree does not panic and an RFC 7932 section 3.5 reader written independently (HSKIP, code-length code lengths in storage order with their fixed variable-length code and the space rule, canonical code-length code incl. the zero-length single-symbol case, code-length symbols with repeat codes 16/17 and chaining, space rule, zero padding) returns exactly the depth vector and consumes every bit; a symbol written by BrotliWriteBits(depth, bits) is read back by the RFC prefix decoder for ANY complete code (symbol_roundtrip). The simple forms NSYM 1..4 and the fast builder's static-code form are checked on instances in Lean (kernel evaluation) and on every generated case by an independent RFC reader in the harness. Tied to the code by running model and implementation on identical requests (exhaustive digest over all count vectors of <= 6 symbols with counts 0..12 in the thorough tier, slices in quick; 18-symbol skews; random alphabets 2..704).",
-    "level_note": "Trusted: Lean kernel + propext/Classical.choice/Quot.sound, gen_source.py (tables kCodeLengthDepth/Bits, kZeroReps*/kNonZeroReps*, kStorageOrder, kHuffmanBitLengthHuffmanCode*, shell-sort gaps, kLut), the hand-written model (tied by correspondence, sampled + exhaustive small domain), the harness and its independent RFC 7932 reader. NOT covered by a general theorem: StoreSimpleHuffmanTree's four forms and the fast builder's serialisation with the static code-length code + kZeroReps/kNonZeroReps tables (Lean: instances by kernel evaluation, static_code_length_code_stored, store_tree_roundtrip_partial for any usable code-length code; harness: every case parsed back). The hypothesis 'no u32 wrap' (sum + len*2^R < 2^32-1) is necessary: without it the code panics (known finding huff:count-sum-wraps-u32, Lean theorem sentinel_collision_panics); real callers histogram one meta-block of <= 2^24 symbols. BrotliOptimizeHuffmanCountsForRle is modelled and compared (correspondence) but no property is claimed for it. BuildAndStoreHuffmanTree is private: its correspondence lines and the simple-tree oracle need the proposed hook (cfg huff_hook); without it the same code is exercised through BrotliCreateHuffmanTree + BrotliConvertBitDepthsToSymbols + BrotliStoreHuffmanTree.",
-    "technique": "Lean 4 proof over executable model (tree invariants, Fibonacci height bound, canonical codes, RLE round trip, RFC reader) + model/implementation correspondence + independent RFC 7932 reader on the real code",
-    "rule": "histograms: every count vector over 1..6 symbols with counts 0..12 (quick: complete for <= 4 symbols, 2000-vector blocks every 20000 / 120000 for 5 / 6 symbols; thorough: all 5.2 million) as digest lines + oracle per vector; 22032 18-symbol vectors (4 growth laws x 9 offsets x 2..18 used symbols x 18 rotations x 2 directions) at limit 5 and 15; random alphabets 2..704 (sizes around the sort-algorithm thresholds 13 and 57, 256/258/272/520/544/704) with geometric / Fibonacci-like / flat / sparse / run-structured / tiny / power-of-two shapes, counts up to 2^24, total <= 2^30 (800 quick, 16000 thorough); the one known wrap witness; free and malformed depth vectors for rle/symbols/store (correspondence incl. panics). non-trivial = distinct histogram with >= 2 occurring symbols on which every builder returned and every oracle (support, limit, Kraft equality, canonical bits, RLE expansion, description parsed back) passed",
-    "assumptions": COMMON_ASSUME + [
-        "histogram total + len*2^R < 2^32-1 for the retry round R in which the tree fits (true whenever the total is <= 2^30 and len <= 704; real histograms total <= 2^24)",
-        "scratch `tree` of at least 2*len+1 nodes (callers pass 2*704+1), `depth`/`bits` at least len entries, storage with 8 spare bytes: the preconditions under which BrotliWriteBits is 'append n bits'",
-        "RFC 7932 sections 3.2/3.4/3.5 are transcribed by hand twice (Lean spec side, Rust oracle side)",
-    ],
-    "trusted_base": ["model: BV/Model/Huffman.lean + BV/Model/Bits.lean mirror src/enc/entropy_encode.rs completely and BrotliWriteBits, BrotliStoreHuffmanTreeOfHuffmanTreeToBitMask, BrotliStoreHuffmanTreeToBitMask, BrotliStoreHuffmanTree, StoreStaticCodeLengthCode, BrotliBuildAndStoreHuffmanTreeFast, StoreSimpleHuffmanTree, BuildAndStoreHuffmanTree of src/enc/brotli_bit_stream.rs"],
-}
 
-PROPS["C19"] = {
-    "lean_modules": ["BV.Props.C19"],
-    "stages": [{"name": "hasher", "cmd": ["hasher"]}],
-    "level_text": "Proof: Lean 4 theorems over a line-by-line executable model of the index-update paths of src/enc/backward_references/mod.rs, with the hash functions as PARAMETERS. BasicHasher (H2/H3/H4/H54): StoreRange = BulkStoreRange = the fold of Store over [s,e), for every data buffer, every range, every ring mask 2^k-1 (usize::MAX = 2^64-1), every starting table, including the panic outcome (the 4-at-a-time path panics exactly when the loop would); and the result is the independently written reference semantics 'each slot holds the last position filed under it'. AdvHasher (H5/H5q5/H5q7/H6): StoreRange (4-at-a-time StoreRangeOptBatch) and BulkStoreRange (32-at-a-time BulkStoreRangeOptMemFetch + tail loop) = the fold of Store, same quantifiers, on every table pair whose sizes satisfy the two assert_eq! of the batched paths (an invariant of construction, proved preserved); and the result is the independently written reference semantics 'the j-th position with a key goes to ring slot (counter + j) mod 2^16 & block_mask of that key's block, counters end at old + count mod 2^16, each slot keeps the last position sent to it'. H9: both entry points are the loop. H10: BulkStoreRange is the loop over an opaque Store; StoreRange agrees below 63 positions and thins longer ranges (by design; shown). partition_irrelevant: any split into consecutive pieces, any alignment, any mix of the two entry points, equals the one-at-a-time fold (all kinds). clone: clone_with_alloc returns equal tables and PartialEq says so. The hypotheses on the hash parameters (no u32 wrap of key+sweep / key<<block_bits; load_and_mix_word = the inline formula of the batched paths when the look-ahead is 4) are proved for the concrete multiplicative hashes of all ten kinds. Tied to the code by running model and implementation on identical (kind, mask, data, op sequence) requests and comparing num/bucket arrays element-wise (digest over all non-zero entries).",
-    "level_note": "Trusted: Lean kernel + propext/Classical.choice/Quot.sound, the hand-written model BV/Model/Hasher.lean (tied by correspondence, sampled), the harness. Model-level assumptions: positions are below 2^63 so that `ix_start + 16`, `ix + 3` do not overflow usize (the encoder wraps positions below 3*2^30); the i32 configuration fields used as shift counts (hash_shift, block_bits) are in range (fixed at construction). H10's Store (StoreAndFindMatchesH10) is NOT modelled: for H10 the theorem is 'BulkStoreRange is literally the loop', and the real H10 is exercised by the search oracle only (no correspondence lines). The fields the update paths never touch (common/params, h9_opts, specialization) are outside the model state; their clone/equality is exercised by PartialEq on the real types. The property was violated by the unchanged tree (D14: per-chunk sweep slot and masked positions in StoreRangeOptBasic; D15: masked positions in StoreRangeOptBatch; chunks straddling the ring end hashed beyond the mask); fixed in /repo by commit 'fix: batched match-index stores ...'; the model follows the fixed code and the corpus keeps the reproductions.",
-    "technique": "Lean 4 proof over executable model (hash functions abstract) + model/implementation correspondence on table contents + PartialEq oracle on the real hasher types",
-    "rule": "kinds: every UnionHasher variant/configuration HasherSetup selects for quality 2..11 (+q9.5) x lgwin {10,16,17,18,19,22,24} x size hint {0, 2^20, 2^20+1, 2^22+1} (22 distinct: H2 H3 H4 H54, H5 x5 configurations, H5q5, H5q7, H6 x6, H9, H10 x4 windows) plus 7 small-table instances of AdvHasher<H5Sub>/<H6Sub> built through the pub fields. Per kind, two indexes starting EQUAL are driven over the same data: (a) Store one position at a time over [S,E); (b) StoreRange/BulkStoreRange in one call or in consecutive pieces. Ranges: every start alignment mod 32 x every length 0..72 x one call and every single split point x {range, bulk, mixed} (complete for small tables, sampled for tables > 600 KB); ring masks 2^6..2^13 with positions up to 6 wraps beyond the mask, ranges around the wrap point, tails mirrored or arbitrary and down to the minimum the per-position path needs; random ranges up to 20000 positions with up to 6 random cuts; 66000..140000-position runs over 1..3-byte patterns (u16 counters wrap). Tables are not reset between cases (accumulated states). Oracle: PartialEq on the real types, first differing element located through the pub fields, panic on one side only, clone_with_alloc == source (also element-wise). non-trivial = a case in which at least one piece enters a batched path of its kind (>= 16 positions BasicHasher, >= 8 StoreRangeOptBatch, > 32 with mask MAX MemFetch) or, for loop-only kinds, has >= 2 positions. Correspondence: ~9000 request lines per quick run from zeroed tables (pre-fill + pieces + clone ops) for every kind except H10.",
-    "assumptions": COMMON_ASSUME + [
-        "positions < 2^63 (no usize overflow in `ix_start + 16`, `ix + 3`); i32 shift-count fields of the specialization in range",
-        "hash parameters satisfy BasicP.Ok / AdvP.Ok (proved for H2, H3, H4, H54 and for every H5/H6 configuration with bucket_bits + block_bits <= 32; ChooseHasher produces at most 15 + 9)",
-        "AdvHasher tables have the sizes the two assert_eq! of the batched paths demand (true of InitializeH5/H6, preserved by every update: adv_sizes_invariant)",
-        "H10: Store is opaque; StoreRange of H10 thins long ranges by design and is claimed only below 63 positions",
-    ],
-    "trusted_base": ["model: BV/Model/Hasher.lean mirrors BasicHasher::{Store, StoreRangeOptBasic, StoreRange, BulkStoreRange}, AdvHasher::{HashBytes, Store, StoreRangeOptBatch, BulkStoreRangeOptMemFetch, StoreRange, BulkStoreRange}, H9::{Store, StoreRange, BulkStoreRange}, H10::{StoreRange, BulkStoreRange} (Store opaque), StoreLookaheadThenStore, StitchToPreviousBlockInternal, clone_with_alloc / PartialEq (table part), and the HashBytes / load_and_mix_word of H2Sub, H3Sub, H4Sub, H54Sub, H5Sub, HQ5Sub, HQ7Sub, H6Sub, H9 of src/enc/backward_references/mod.rs"],
+# properties registered but not yet claimed (check still being built / not quiet yet): id -> reason
+UNCLAIMED = {
+    "C08": "check under construction (bound/one-shot model and theorems in progress) - not claimed yet",
 }
+NOT_YET = dict(UNCLAIMED)
+for _k in ("C01", "C04", "C05"):
+    NOT_YET.setdefault(_k, "check under construction (stream-machine model exists for C20; theorems and registration for this property in progress) - not claimed yet")
 
-PROPS["C10"] = {
-    "lean_modules": ["BV.Props.C10"],
-    "stages": [{"name": "dict", "cmd": ["dict"]}],
-    "level_text": "Proof of position agreement, partial for the round trip: Lean 4 theorems over a line-by-line model of set_custom_dictionary_with_optional_precomputed_hasher, copy_input_to_ring_buffer, RingBufferWrite/InitBuffer/WriteTail and the max_distance line of CreateBackwardReferences (parameters sanitised by the C15 header model, literals harvested from the source) against a hand model of what brotli-decompressor 4.0.3 does with a custom dictionary. For EVERY parameter struct (raw lgwin and quality in Z, clamped first), every dictionary length d >= 1 and content, sanitised quality >= 2: the encoder's start position, last_flush_pos_, last_processed_pos_, input_pos_ and recoder position all equal the decoder's custom_dict_size d' = min(d, 2^lgwin-16); max_distance agrees at every later position (the decoder's sticky state machine is proved equal to min(P+d', 2^wbits-16) along every run); prev_byte_/prev_byte2_ equal the decoder's two context bytes (0 where the dictionary is shorter than 2); the ring buffer holds dict[size-k] exactly where the decoder finds it (dict_tail_in_ring) - covering d in {1,2}, d > window (tail only) and out-of-range lgwin. For quality 0/1 or d = 0 (dictionary ignored, self-contained mode set): every LZ77 distance valid for the encoder is <= P and <= the decoder's max_distance (dict_ignored_harmless). C10_roundtrip_partial composes this with an explicit payload hypothesis (the command array replays to the input under the ENCODER's view, RFC 7932 semantics). The round trip itself is judged on the real code on every run by decoding with the same dictionary.",
-    "level_note": "Trusted: Lean kernel + propext/Classical.choice/Quot.sound; the hand-written encoder model BV/Model/Dict.lean (tied by correspondence on the book-keeping fields, the ring-buffer geometry, digests of the ring content and of the whole ring allocation, for 2.7k parameter/length points incl. unsanitised lgwin/quality and lgwin 24); the decoder hand model BV.Dict.Dec (read from decode.rs of brotli-decompressor 4.0.3; tied only through the differential decode). NOT proved: the payload encoder (hypothesis of C10_roundtrip_partial), 'quality 0/1 emit no static-dictionary reference' (compress_fragment_* have no dictionary path; exercised), the match index prepended by HasherPrependCustomDictionary (C19's subject; a wrong index can only cost compression or produce copies that the round-trip oracle would catch).",
-    "technique": "Lean 4 proof over executable model (encoder book-keeping vs decoder hand model) + model/implementation correspondence + differential decode with the same dictionary",
-    "rule": "search grid: lgwin {10,11,12,13,14,16,18} x quality 0..11 x magic_number x d in {0,1,2,3, one mid value, w-17, w-16, w-15, w+5, 2w+3} x 2 inputs (quick; 8 thorough); lgwin 15,17,19 boundary sweep; lgwin 20..24 sparse (d in {1,w-17..w-15,w+5}); out-of-range lgwin {-3,0,3,4,5,8,9,25,30} (clamped: ordinary cases) incl. dictionaries far larger than the clamped window; inputs: `tail` (starts with the dictionary's tail so the first copy crosses the dictionary end, then text / dictionary substrings / noise), `period` (continues a 1..8-byte period of the dictionary tail: overlapping copy across the dictionary end), `text` (static-dictionary words), `tiny` (0..3 bytes), `long` (longer than the encoder ring buffer), `shrunk` (lgwin {10,12,16,22} x quality 2..11 x d in {1,2,3,5,9,17,40,200,w-16,w+5}: one last meta-block with d'+len within 16 of a power of two and a late copy of the oldest dictionary bytes - the decoder's shrunk ring buffer); APIs: set_custom_dictionary + compress_stream (one chunk / random chunking with tiny output windows / explicit empty-dictionary call) and BrotliCompressCustomIoCustomDict; oracle: crate::dec::decode_dict(stream, same dictionary) == input. Non-trivial = d >= 1, encoder returned a stream and it was decoded and compared. Correspondence: `dict book lgwin quality size seed` for lgwin -3..30 x quality -1..12 x the d grid + lengths around 2^lgblock.",
-    "assumptions": COMMON_ASSUME + [
-        "the caller passes size == dict.len() (the only internal caller does); dictionaries are shorter than 2^30 bytes",
-        "decoder behaviour = the hand model BV.Dict.Dec (brotli-decompressor 4.0.3: tail truncation to 2^wbits-16 in BrotliAllocateRingBuffer, placement at (-d') & mask, max_distance update in ProcessCommandsInternal and at ring wrap) AND the dictionary tail stays readable below position 0 while it is within max_distance - known to be FALSE in one corner of the real decoder (shrunk ring buffer + speculative 16-byte copies, see proposed/decoder-shrunk-ring-clobbers-dict.md; harness signature dict:wrong-decode:decoder-shrunk-ring)",
-        "payload hypothesis of C10_roundtrip_partial: the emitted commands replay to the input under the encoder's own view of history and window (checked end to end only by the differential decode)",
-    ],
-    "trusted_base": ["model: BV/Model/Dict.lean mirrors set_custom_dictionary_with_optional_precomputed_hasher, copy_input_to_ring_buffer, RingBufferSetup/InitBuffer/WriteTail/Write (src/enc/encode.rs) and the max_distance computation of CreateBackwardReferences; SanitizeParams/ComputeLgBlock/ComputeRbBits/header window from BV/Model/Header.lean", "decoder hand model BV.Dict.Dec", "decoder oracle: brotli-decompressor 4.0.3 new_with_custom_dictionary"],
-}
-
-PROPS["C14"] = {
-    "lean_modules": ["BV.Props.C14"],
-    "stages": [{"name": "recoder", "cmd": ["recoder"]}],
-    "level_text": "Proof of the recoder, partial for the end-to-end statement: Lean 4 theorems over a line-by-line model of process_command_queue, CommandQueue::push (growth), InputPair::split_at, InputPairFromMaskedInput, push_literals/push_rand_literals, Command::distance_index_and_offset and the assertions of LogMetaBlock, against two independently written specifications: replayIR (what a consumer of the callback does: literals = slices of the meta-block input, copies resolved against everything produced so far preceded by the custom-dictionary tail, dictionary commands expanded, block switches ignored) and replayCommands (what RFC 7932 says a decoder does with the same raw command array: ring of last distances, rfcDistDecode, LZ77 copy iff distance <= min(position, window), else static-dictionary word). recode_preserves_replay: for EVERY command array, block-split description (consistent or not), literal split, ring-buffer wrap position of the input pair, distance parameters, distance cache and history, if the model does not panic and the RFC decoder accepts the array then replaying the IR yields exactly the decoder's output (so every IR copy has 1 <= distance <= bytes produced + dictionary and <= window, every dictionary command expands to final_size) and the returned num_bytes_encoded is the decoder's position; recode_replays_input adds the payload hypothesis (the decoder reproduces the input) to get 'IR replays to the input byte for byte'; recoder_position_is_stream_position threads this over any sequence of meta-blocks started at the custom-dictionary length; queue_growth_lossless: the growing queue delivers exactly what was pushed; init_commands_are_wf: commands stored by Command::init satisfy the well-formedness the theorem assumes (via C18). The model is tied to the code by running process_command_queue ITSELF (through the public BrotliStoreMetaBlock* wrappers) on crafted command arrays / block splits / wrap positions, and on the raw commands of the real encoder (cfg hook).",
-    "level_note": "Trusted: Lean kernel + propext/Classical.choice/Quot.sound; the hand-written model BV/Model/Recoder.lean (correspondence: 24k crafted calls incl. ~4k panic outcomes + ~1k real-encoder meta-blocks per quick run, all outputs compared token by token); the static dictionary is NOT modelled: TransformDictionaryWord on kBrotliDictionary is a recorded oracle in the correspondence and the abstract parameter `expand`/`WordOracle` (hypothesis OracleOK) in the theorems; the two small dictionary tables are compared on every run. Partial: the payload hypothesis PayloadOK (the encoder's commands decode to the input) is not proved - the end-to-end statement is judged on the real code by an independent IR replay in the harness on every run; `slices tile the input` across meta-blocks depends on encode_data (C01/C20) and is covered by the same oracle. Model arithmetic follows debug semantics (overflow = panic); correspondence inputs stay inside the overflow-free domain (no zero-length command/distance blocks, nbits 1..24), because the harness is a release build.",
-    "technique": "Lean 4 simulation proof (recoder loop vs RFC decoder) over executable model + model/implementation correspondence on crafted and real command arrays + independent IR replay oracle on the real encoder",
-    "rule": "search: 900 (quick) / 6000 (thorough) encoder runs with log_meta_block: quality 2..11 (round robin) x lgwin {10,12,14,16,18,20,22} x mode {generic,text,font} x stride_detection_quality {0..4} x high_entropy_detection_quality {0,1,2} x cdf_adaptation_detection {0,1,2} x prior_bitmask_detection {0,1} x catable/appendable/magic/use_dictionary/large_window/lgblock/size_hint x custom dictionary {none, 1, 2, mid, w-17..w-15, > window} x input kinds of engine dict (tail/period/text/tiny, 1 in 12 longer than the ring buffer) x API (one chunk / random chunking / one-shot BrotliCompressCustomIoCustomDict); oracle = independent replay (literal offsets == cursor, copy distance in 1..min(produced+dictionary, window), dictionary commands expand through brotli-decompressor's dictionary + TransformDictionaryWord to final_size, per-meta-block bytes == InputPair bytes, concatenated slices == input) and the stream still decodes. Non-trivial = encoder finished and at least one meta-block with a copy or dictionary command was replayed. Correspondence: 24000 (quick) / 200000 crafted calls: variant {fast, trivial, full, uncompressed}, masks 63..4095, all wrap positions, valid-by-construction command arrays with static-dictionary words, truncating arrays, mutated fields, valid and broken block splits; plus every real-encoder meta-block <= 12 KB of the search runs (hook).",
-    "assumptions": COMMON_ASSUME + [
-        "PayloadOK: the RFC decoder run on the encoder's command array with the encoder's history reproduces the meta-block input (unproved; exercised)",
-        "OracleOK: TransformDictionaryWord on the word at dictionary_offset = the (word length, word id, transform) expansion of the consumer/RFC, transforms < 256 and expansions < 256 bytes (true: 121 transforms, <= 37 bytes)",
-        "DistWF for every command (nbits field = RFC NDISTBITS of the symbol, distance < 2^31): proved for commands stored by Command::init with npostfix <= 3, ndirect <= 120 (init_commands_are_wf) provided the block's distance parameters are those the commands were built with",
-        "meta-block length < 2^32, lgwin <= 30 (window < 2^31); stream positions < 2^32 (WrapPosition not modelled)",
-        "stride/cdf/prior detection passes (other CommandProcessor implementations fed by the same process_command_queue) are not modelled; they are exercised by the search oracle only",
-    ],
-    "trusted_base": ["model: BV/Model/Recoder.lean mirrors process_command_queue, CommandQueue::{new,push}, LogMetaBlock assertions, InputPairFromMaskedInput (brotli_bit_stream.rs), InputPair::split_at (input_pair.rs), CommandProcessor::push_literals/push_rand_literals (interface.rs), Command::distance_index_and_offset (command.rs); copy_len_code from BV/Model/PrefixArith.lean", "hook: brotli_bit_stream::verif_recoder_hook (cfg brotli_verif) records the arguments of LogMetaBlock", "oracle tables: brotli-decompressor dictionary + TransformDictionaryWord"],
-}
-
-NOT_YET = {}
-
-ADAPTERS_ASSUME = COMMON_ASSUME + [
-    "the streaming encoder under the adapters is NOT modelled here: it is an oracle (any deterministic machine) constrained by two named hypothesis structures — EncSane (consumed <= offered, produced <= capacity) and EncProgress (a successful, demanded call with output room that consumed nothing lowers a rank of the encoder state) — both proved for a concrete toy encoder (non-vacuity) and checked on every answer the real encoder gives during the run (signature adapters:oracle-hypothesis); discharging them for the real encoder is the stream machine's job (C20/C01)",
-    "the wrapped Read/Write is an arbitrary finite script of per-call behaviours (full, at most k bytes, Interrupted, hard error, Ok(0)) followed by one behaviour that lasts forever; the only assumption is that Interrupted is returned finitely often (the tail is never Interrupted)",
-    "CompressorWriter::into_inner / Drop return no Result (API design): an I/O error during the final FINISH is dropped by the code and by the model alike; error_reported covers write, flush, read and the copy function",
-    "generic CustomIo layer: the two stock error values are handed out by move; theorems at that layer assume both are present at call entry (the std layer re-arms after every Err — proved to be an invariant there; users of the generic layer must call rearm_errors themselves)",
-]
-PROPS["C11"] = {
-    "lean_modules": ["BV.Props.C11"],
-    "stages": [{"name": "adapters", "cmd": ["adapters"]}],
-    "level_text": "Proof over arbitrary fault scripts and an arbitrary encoder oracle: Lean 4 theorems over an executable model of writer.rs (write_all, write, flush_or_close, flush, into_inner, std re-arm layer), reader.rs (refill loop, read, copy_to_front), the copy loop of enc/mod.rs and the Interrupted-retry wrappers. Proved for EVERY script of the wrapped stream, every caller size incl. 0 and every own-buffer size: each read/write/flush/into_inner/copy call returns after finitely many loop iterations (well-founded measure: bytes still to feed, EOF flag, encoder rank); read into an empty buffer returns Ok(0) without touching anything; write_all conserves bytes and makes progress on every answered call; a hard error or zero-length write at any call index makes write/flush/read/copy return Err (copy: the first read error wins); over any script free of hard errors/Ok(0) the writer equals a reference automaton that knows no wrapped stream (same encoder calls, same results, sink = encoder output) and two readers with different short-read scripts make the same encoder calls and return the same results (simulation); otherwise the sink holds a prefix of the encoder output; if every call succeeded the encoder was fed exactly what was written/read, reports finished, and the sink holds exactly its output. Model tied to the code by a three-way run (real adapter over scripted streams with a counting own-buffer / transcription over a shadow encoder that records the trace / Lean replay of that trace).",
-    "level_note": "Trusted: Lean kernel + 3 standard axioms; the hand-written model BV/Model/Adapters.lean (tied by correspondence on every single-fault script at every call index of short base cases + random long scripts; sampled, not proved); the harness. Assumed, not proved: the two encoder hypotheses (EncSane, EncProgress) — checked at run time on every recorded answer of the real encoder; 'the emitted bytes are a complete brotli stream for the input' is the encoder's property (C01) and is judged on the real code by decoding the sink. into_inner/Drop swallow I/O errors by API design (no Result) — stated, not counted as a violation. The loop-level script-independence of the copy function's read side is proved for the shared refill loop and for the reader; for the copy loop itself it is exercised differentially (short_reads_transparent is _partial there).",
-    "technique": "Lean 4 proof (termination by lexicographic measure, invariants, simulation, reference automaton) over an executable reactive-program model with oracle + trace-replay correspondence + fault-injection search on the real code",
-    "rule": "case = adapter (CompressorWriter std / CustomIo layer, CompressorReader std / CustomIo layer incl. copy_to_front calls, BrotliCompressCustomAlloc) x own-buffer size (1,2,3,7,64,255..257,300,4096) x quality {0,1,2,3,5,9} x lgwin {10..18} x script; exhaustive part: for short base cases every behaviour (short-by-all-but-1, Interrupted, hard error, Ok(0)) at EVERY call index of the wrapped stream, plus triples of zero-length writes in different calls, permanently failing tails, read+write errors together; random part: scripts up to 30 entries + tails, caller sizes incl. 0; corpus: the D6/D7/D8/D19 reproductions. Non-trivial = a non-full behaviour was actually consumed by the real run or a size 0/1 was used. Oracles on the real code alone: no livelock (iteration bound counted on the adapter's own buffer accesses, never wall-clock), no panic, error reported by the enclosing call, first read error wins, bytes equal to the run over a well-behaved stream when every call succeeded (prefix up to the first failing call otherwise), sink decodes to everything written.",
-    "assumptions": ADAPTERS_ASSUME,
-    "trusted_base": ["model: BV/Model/Adapters.lean mirrors src/enc/writer.rs, src/enc/reader.rs, BrotliCompressCustomIoCustomDict of src/enc/mod.rs and the retry wrappers of brotli-decompressor-4.0.3/src/io_wrappers.rs", "harness/src/adapters.rs: scripted Read/Write, counting SliceWrapperMut, shadow encoder + transcription of the model (a disagreement with the real adapter is itself reported: adapters:mirror-mismatch)"],
-}
-
-MULTI_ASSUME = COMMON_ASSUME + [
-    "the single-stream encoder is an ORACLE of the multi model: per job a recorded result (Ok(bytes) | Err | panic | spin) for CompressMulti, per job the recorded compress_stream(FINISH) answers (return value, is_finished, consumed, produced) for compress_part; every theorem about CompressMulti quantifies over ALL such recordings",
-    "that each job's bytes decode to its range given the preceding input as dictionary (C01 + C10) and that catable streams splice to the concatenation (C03's CatableBody) are NOT proved here: the composition 'Ok => decodes to the input' is judged on the real code by two independent decoders on every run",
-    "the concatenator is the complete model BV/Model/Concat.lean (nothing assumed; its invariant and no-panic theorems are imported from C16)",
-    "OwnedRetriever::view never fails: the RwLock around the input is only ever read-locked and a read guard does not poison, so the two `return Err(OtherThreadPanic)` after a failed view are treated as dead code",
-    "OS thread spawn/join is modelled as 'runs once, join returns its value (or Err if the thread panicked)'; the worker pool's queue discipline is the LTS of C07, used through join_returns_own / arc_one_after_all_joined / exactly_once for every schedule",
-]
-PROPS["C02"] = {
-    "lean_modules": ["BV.Props.C02"],
-    "stages": [{"name": "multi", "cmd": ["multi", "c02"]}],
-    "level_text": "Proof, partial for the end-to-end statement: Lean 4 theorems over an executable model of get_range, compress_part and CompressMulti (all three spawners, every return path, ownership token of the input) with the single-stream encoder as a recorded oracle and the complete concatenator model underneath. Proved for every input length, 1 <= t, every spawner, every output capacity and ALL job results: get_range tiles [0,n) without overflow for n*t < 2^64 (slices glued = input); CompressMulti never panics, never hangs and never writes past the buffer unless a job itself panics or spins; it returns Ok(k) IF AND ONLY IF every job returned Ok and the reference splice (per member new_brotli_file + one stream call answering NeedsMoreInput|Success, then finish = Success) of the job outputs in index order succeeds, and then output[..k] is exactly that splice; the input is handed back on every return path on which no job panicked (the only other path, a panicked job thread of the thread-per-job spawner, is exhibited); compress_part reports Ok only for a finished stream (all qualities) and does report Ok when the stream fits BrotliEncoderMaxCompressedSize(len); a job's dictionary is the last 2^lgwin-16 bytes of its prefix and positions restart there. Regression theorems show that the aggregation before the corrections returned Ok for a cut output and lost the input. multi_succeeds_when_sized is partial: the arithmetic (per-job bounds sum to <= MaxMulti) and the reduction to the reference splice are proved; that the concatenator accepts well-formed members whenever it has room for all their bytes + 1 is assumed and checked at run time. 'Ok => the bytes decode to the input' composes these theorems with the encoder's own guarantees (C01, C03, C10), which are judged on the real code by two independent decoders.",
-    "level_note": "Trusted: Lean kernel + propext/Classical.choice/Quot.sound; the hand-written model BV/Model/Multi.lean, tied to the code by recomputing every job through the public single-stream API exactly as compress_part does (incl. the favor-cpu shared index), feeding the job outputs to the model and comparing predicted bytes / error class / ownership flag with what the three real spawners return at, below and above the size bound (sampled, not proved); harness; brotli-decompressor 4.0.3 and libbrotlidec 1.0.9 as decode oracles. Partial: multi_succeeds_when_sized_partial (hypothesis hroom + per-job slack constants observed <= 9 / <= 17 with magic header). Job panics are outside the guarantee: thread-per-job then returns Err(ThreadExecError) WITHOUT the input, the pool's join waits for ever, the inline spawner panics (all three exhibited as examples).",
-    "technique": "Lean 4 proof (soundness+completeness of the stitch loop against a reference splice, invariant threading, arithmetic) over an executable model with encoder oracle + model/implementation correspondence on recomputed jobs + differential decode with two independent decoders",
-    "rule": "case = quality 0..11 x lgwin 10..24 (sparse: 25..30 with large_window, out-of-range lgwin values) x favor_cpu_efficiency x catable/appendable/magic x size_hint x 1..16 threads x input (5 generators: random, text-like, far repeats, pattern, low entropy; lengths 0, < t, 1..20 KB, 20..200 KB with lgwin 10..13 so that prefixes exceed the window, up to 1 MB) ; every case runs thread-per-job, fresh pool, reused pool, inline, a repeat with a larger buffer, the other favor setting, and buffers of exactly the needed size, one less, random smaller and 0..6 bytes; non-trivial = at least two threads with a non-empty first piece; oracles on the real code: no panic, Ok => both decoders return exactly the input, buffer >= BrotliEncoderMaxCompressedSizeMulti and quality >= 2 => Ok, input handed back on Ok and on Err, every recomputed job Ok => its stream is finished; corpus: the minimal reproductions of D13/D16/D18/D19 run first",
-    "assumptions": MULTI_ASSUME + [
-        "hroom of multi_succeeds_when_sized_partial: the concatenator accepts the job outputs whenever it is given room for all their bytes + 1 (checked on every run: counter splice_room.checked, signature multi:assumption:splice-expands)",
-        "part_succeeds_when_stream_fits assumes the stream machine's one-shot contract (FINISH with the whole input and enough room returns true, finished) and C08's bound for quality >= 2; at quality 0/1 with lgwin < 14 the bound is too small and the job answers Err(InsufficientOutputSpace) (allowed by the property)",
-        "sizes < 2^62 (no wrap-around in BrotliEncoderMaxCompressedSize), t < 2^64",
-    ],
-    "trusted_base": ["model: BV/Model/Multi.lean mirrors get_range, compress_part, CompressMulti (src/enc/threading.rs), the spawn/join behaviour of multithreading.rs / singlethreading.rs / worker_pool.rs as seen by CompressMulti, BrotliEncoderMaxCompressedSize(+Multi) and the truncation arithmetic of set_custom_dictionary_with_optional_precomputed_hasher (src/enc/encode.rs)", "harness/src/multi.rs: job recomputation through the public API (BrotliEncoderStateStruct, set_custom_dictionary_with_optional_precomputed_hasher, HasherSetup, BulkStoreRange)"],
-}
-
-PROPS["C06"] = {
-    "lean_modules": ["BV.Props.C06"],
-    "stages": [{"name": "multi", "cmd": ["multi", "c06"]}],
-    "level_text": "Proof, partial (job purity is a stated hypothesis): Lean 4 theorems over the CompressMulti model and the worker-pool LTS of C07. Proved: any history of CompressMulti calls on one (reused) pool obeys the pool's caller contract, hence under EVERY schedule each join returns the result of the job whose index was passed at its spawn, every joined job ran exactly once and the input can be retrieved; for 1 <= t <= 16, every capacity and all job values without panic/spin, thread-per-job, pool and inline spawner give the same result (same Ok/Err, same bytes, input returned) whenever the jobs of the two runs return the same values (PURITY, explicit); whenever two calls return Ok their bytes are equal and are the reference splice of the job values, a function of nothing the spawner or the schedule can influence; favor_cpu_equiv: over an abstract hasher whose BulkStoreRange is additive over consecutive ranges and local (C19), the shared index pre-built by the favor-cpu branch equals the index the job builds itself provided the job's prefix is not truncated to the window - with kernel-evaluated counterexamples showing that each hypothesis is needed (truncated prefix; non-additive sweep-slot store; the old per-range guard on short ranges). Byte identity itself is judged on the real code: every case is run through the three spawners, a fresh and a reused pool, twice, and with favor_cpu_efficiency on and off.",
-    "level_note": "Trusted: Lean kernel + 3 standard axioms; models BV/Model/Multi.lean, BV/Model/Pool.lean (tied by correspondence; the pool under the scheduler shim in C07's stage); harness. Assumed, exercised only: PURITY = determinism of the single-stream encoder given (input, params, index, thread count, hasher state) - independence of allocator history, thread identity and pool freshness. The hasher is abstract in favor_cpu_equiv: additivity/locality of the real BulkStoreRange implementations is C19's subject.",
-    "technique": "Lean 4 proof (spawner-independence of the stitch loop, reuse of the pool LTS theorems for all schedules, abstract-hasher equivalence with counterexamples) + byte-for-byte differential run of the real spawners / pool reuse / repeats / favor on-off",
-    "rule": "same cases as C02; per case the outputs of thread-per-job, fresh pool, reused pool (1..16 workers, shared by the ~25 cases of a shard), inline, a repeated run with a larger buffer, an exact-fit buffer and the flipped favor_cpu_efficiency setting are compared byte for byte (and class for class on errors); non-trivial as in C02; OS schedules are whatever the 16-way parallel run produces (the deterministic scheduler shim drives the pool in C07's stage with index-valued jobs)",
-    "assumptions": MULTI_ASSUME + [
-        "PURITY (job value is a function of input, params, index, thread count and the hasher handed in): stated hypothesis of inline_equals_pool_equals_threads; exercised, not proved",
-        "favor_cpu_equiv: Additive and Local are hypotheses about BulkStoreRange (C19); the theorem is about index equality, its consequence for bytes again needs PURITY",
-    ],
-    "trusted_base": ["model: BV/Model/Multi.lean (spawners as seen by CompressMulti), BV/Model/Pool.lean (C07)", "BV/Lemmas/MultiFavor.lean mirrors the favor-cpu loop of CompressMulti (stored_end) and StoreLookaheadThenStore"],
-}
-
-PROPS["C13"] = {
-    "lean_modules": ["BV.Props.C13"],
-    "stages": [{"name": "ffi", "cmd": ["ffi"]}],
-    "level_text": "Proof of the wrapper arithmetic, differential for byte identity: Lean 4 theorems over an executable model of the C ABI wrappers of src/ffi/compressor.rs (BrotliEncoderCompressStream/Streaming, TakeOutput, catch_panic) and of the dispatch of src/ffi/multicompress (zero threads, min(n,16), allocator-opaque indexing), with the Rust calls underneath as recorded answers: after every stream call each pointer has advanced by exactly the decrease of its counter (also for zero counts and null pointers); *total_out equals the bytes delivered so far along any history (also after calls that deliver nothing); for any interleaving of take_output calls and pushes the chunks handed out plus what is pending are the pending bytes, each once, in order; an unwinding Rust call yields 0 with pointers and *total_out untouched; desired_num_threads = 0 is rejected before anything is touched, otherwise min(n,16) threads and every allocator-opaque index is in range. Same bytes as the Rust API, the out-pointer values, has_more/is_finished, the counting allocator's balance, the one-shot, multi-thread and work-pool entry points are compared with the Rust API call by call on the real code (in child processes: an abort is a violation).",
-    "level_note": "Trusted: Lean kernel + 3 standard axioms; the hand-written model BV/Model/FFI.lean (tied by correspondence: the model is given what the C caller passed and what the twin Rust call answered and must predict every value written through the out-pointers); the harness. Assumed of the Rust calls and checked on every twin call: offset + available = offered (CursorsAgree) and the total_out cell is stored exactly by delivering calls with the running total (TotalTracks). Partial: ffi_refines_requests (byte identity) is differential, not proved — the wrappers pass the caller's memory straight to the Rust call; unwrapped_entry_points_cannot_panic is proved for the take_output arithmetic only (SetParameter/IsFinished/HasMoreOutput have no panic site by inspection; the slice behind take_output is the stream machine's invariant). catch_unwind, the extern \"C\" ABI and the validity of caller pointers (a NULL pointer with a NON-zero count is outside the documented contract and is not exercised) are runtime facts.",
-    "technique": "Lean 4 proof over an executable wrapper model with the Rust API as oracle + call-by-call differential run C ABI vs Rust API in child processes",
-    "rule": "history = allocator (default | counting custom callbacks) x parameter list (quality 0-11, lgwin 10-18, mode, size hint, lgblock, catable/appendable/magic, out-of-range values) x optional custom dictionary x 1..10 blocks of calls (PROCESS/FLUSH with 0..20000 bytes and output capacities 0,1,3,16,100,1000,5000,70000; EMIT_METADATA blocks of 0..300 bytes driven to completion; take_output with sizes 0,1,5,100,100000; has_more; is_finished) through CompressStream or CompressStreaming, with or without a total_out pointer, null pointers whenever a count is 0, then FINISH with growing capacities, destroy; plus one-shot calls (sizes 0,1,2, max-1, max, max+10), CompressMulti / work-pool calls for every desired thread count 0..32 (compared with the Rust multi-threaded API run with min(n,16) jobs), and in-contract edge calls (alloc without free, destroy(NULL), all-null zero-count FINISH, input after FINISH, null work pool, tiny outputs). Non-trivial = a history with a zero-count/null call, a take_output or a call that delivered nothing.",
-    "assumptions": COMMON_ASSUME + [
-        "the Rust calls under the wrappers (compress_stream, take_output, compress_multi, encoder_compress) are recorded answers of a twin run through the Rust API with the same history; two hypotheses about them (CursorsAgree, TotalTracks) are checked on every twin call",
-        "pointer validity is the caller's obligation: NULL is exercised only together with a zero count, as c/brotli/encode.h allows",
-    ],
-    "trusted_base": ["model: BV/Model/FFI.lean mirrors BrotliEncoderCompressStream(+Streaming), BrotliEncoderTakeOutput, catch_panic and the dispatch/indexing of BrotliEncoderCompressMulti / CompressWorkPool", "harness/src/ffi.rs: twin Rust-API run, counting allocator callbacks, child-process sharding"],
-}
+# ---------------------------------------------------------------------------------------------
+# Per-property registrations written by the property-group workers live in tools/props.d/Cnn.py
+# (one file each, so that concurrent edits cannot clobber each other); each is exec'd with
+# PROPS / COMMON_ASSUME in scope.
+import glob as _glob, os as _os
+for _f in sorted(_glob.glob(_os.path.join(_os.path.dirname(_os.path.abspath(__file__)), "props.d", "C*.py"))):
+    exec(compile(open(_f).read(), _f, "exec"))
+for _k in UNCLAIMED:
+    if _k in PROPS:
+        PROPS[_k]["claimed"] = False
